@@ -89,7 +89,7 @@ def run_config(job):
     if cfg["mem"] == "dkmax+addcorr":
         kw["add_correlation_time"] = 2 * DT
     params = oqupy.TempoParameters(dt=DT, epsrel=EPSREL, **kw)
-    h0 = w0 * sz + wx * sx
+    h0 = w0 * sz + wx * sx + 0.4 * sy           # a complex Hermitian Hamiltonian
     gam, lop = 0.3, sx - 1j * sy
     if cfg["sys"] == "static":
         system = oqupy.System(h0)
@@ -135,8 +135,26 @@ def run_config(job):
                 chain.add_nn_dissipation(0, lop, lop.conj().T, 0.4)
                 chain.add_nn_dissipation(1, np.eye(d, dtype=complex), lop, 0.2)
             mps = oqupy.AugmentedMPS([rho0.copy(), initial_state(d, "mixed", rng), initial_state(d, "pure", rng)])
+            ctrl = None
+            if cfg["sys"] == "timedep":
+                # control operations on the chain: a non-unital channel (decay towards level 0), pre and post
+                # measurement, and a unitary kick - all trace preserving and completely positive
+                p_ = 0.35
+                ks = [np.diag([1.0] + [np.sqrt(1 - p_)] * (d - 1)).astype(complex)]
+                for lev in range(1, d):
+                    k_ = np.zeros((d, d), dtype=complex)
+                    k_[lev - 1, lev] = np.sqrt(p_)
+                    ks.append(k_)
+                damp = sum(np.kron(k_, k_.conj()) for k_ in ks)
+                from scipy.linalg import expm
+                u_ = expm(-0.4j * (sx + 0.5 * sy))
+                kick = np.kron(u_, u_.conj())
+                ctrl = oqupy.ChainControl([d, d, d])
+                ctrl.add_single_site_control(damp, 1, 1, post=False)
+                ctrl.add_single_site_control(kick, 0, 2, post=True)
+                ctrl.add_single_site_control(damp, 2, NSTEPS - 1, post=True)
             t = oqupy.PtTebd(mps, chain, [pt, None, None], oqupy.PtTebdParameters(dt=DT, order=2, epsrel=EPSREL),
-                             dynamics_sites=[0, 1, (1, 2)])
+                             dynamics_sites=[0, 1, (1, 2)], chain_control=ctrl)
             res = t.compute(NSTEPS, progress_type="silent")
             norms = res["norm"]
             states = [(a, b, c) for a, b, c in zip(res["dynamics"][0].states, res["dynamics"][1].states,
